@@ -38,20 +38,21 @@ type fwdCfg struct {
 	// Kerberos: authentication towards the upstream proxy by a (stub) Kerberos adapter
 	Kerberos bool `json:"kerberos"`
 	// Frames: the entries themselves (TimeFrame.tla schedules); used instead of TimeFrame when set
-	Frames         []ruleset.TimeFrameEntry `json:"-"`
-	Upstream       string                   `json:"upstream"`  // proxy URL
-	PAC            string                   `json:"pac"`       // script
-	Creds          []string                 `json:"creds"`     // user:pass@host:port
-	ConnectTo      []string                 `json:"connectTo"` // src_host:src_port:dst_host:dst_port
-	MITM           bool                     `json:"mitm"`
-	ReqHeaders     []string                 `json:"reqHeaders"`
-	ResHeaders     []string                 `json:"resHeaders"`
-	ConHeaders     []string                 `json:"conHeaders"`
-	Handler        bool                     `json:"handler"` // TestingHTTPHandler variant
-	ProxyProto     bool                     `json:"proxyProto"`
-	TLS            bool                     `json:"tls"`
-	ConnectTimeout time.Duration            `json:"-"`       // --connect-timeout (0 = default)
-	LogHTTP        string                   `json:"loghttp"` // --log-http mode of the proxy ("" = default)
+	Frames             []ruleset.TimeFrameEntry `json:"-"`
+	Upstream           string                   `json:"upstream"`  // proxy URL
+	PAC                string                   `json:"pac"`       // script
+	Creds              []string                 `json:"creds"`     // user:pass@host:port
+	ConnectTo          []string                 `json:"connectTo"` // src_host:src_port:dst_host:dst_port
+	MITM               bool                     `json:"mitm"`
+	ReqHeaders         []string                 `json:"reqHeaders"`
+	ResHeaders         []string                 `json:"resHeaders"`
+	ConHeaders         []string                 `json:"conHeaders"`
+	Handler            bool                     `json:"handler"` // TestingHTTPHandler variant
+	ProxyProto         bool                     `json:"proxyProto"`
+	TLS                bool                     `json:"tls"`
+	OriginTLSHandshake time.Duration            `json:"-"`       // --http-tls-handshake-timeout towards origins (0 = default)
+	ConnectTimeout     time.Duration            `json:"-"`       // --connect-timeout (0 = default)
+	LogHTTP            string                   `json:"loghttp"` // --log-http mode of the proxy ("" = default)
 
 	IdleTimeout       time.Duration `json:"-"`
 	ReadHeaderTimeout time.Duration `json:"-"`
@@ -360,6 +361,9 @@ func startFwd(c fwdCfg) (*fwd, error) {
 	tcfg.Insecure = c.InsecureUpstream
 	tcfg.Retry = forwarder.DialRetryConfig{Attempts: 1}
 	tcfg.DialTimeout = 5 * time.Second
+	if c.OriginTLSHandshake > 0 {
+		tcfg.TLSClientConfig.HandshakeTimeout = c.OriginTLSHandshake
+	}
 	var pairs []forwarder.HostPortPair
 	for _, s := range c.ConnectTo {
 		hpp, err := forwarder.ParseHostPortPair(s)
